@@ -221,6 +221,125 @@ def none_results_and_opaque_annotations(prefix: str = "C08") -> Optional[dict]:
     return None
 
 
+def ignored_parameters(prefix: str = "C08") -> Optional[dict]:
+    """An ignored parameter (and an ignored return value) is not checked - so its annotation is never needed: one that
+    no resolver can read (a forward reference, a Callable, a TypeVar) must not keep the function from being
+    decorated, the body runs iff the *checked* arguments are valid, and the ignored argument arrives untouched."""
+    import typing
+    from koda_validate.signature import InvalidArgsError, validate_signature
+    from ..corr import drive
+    T = typing.TypeVar("T")
+    anns = (("a forward reference", "NotDefinedAnywhere"), ("Callable[[int], int]", typing.Callable[[int], int]), ("a TypeVar", T))
+    shapes = {"posonly": ("def f(a, /, b):", lambda w, a, b: w(a, b)),
+              "poskw": ("def f(a, b):", lambda w, a, b: w(a, b)),
+              "poskw-by-keyword": ("def f(a, b):", lambda w, a, b: w(b=b, a=a)),
+              "varargs": ("def f(b, *a):", lambda w, a, b: w(b, a, a)),
+              "kwonly": ("def f(b, *, a):", lambda w, a, b: w(b, a=a)),
+              "varkw": ("def f(b, **a):", lambda w, a, b: w(b, k=a))}
+    for is_async in (False, True):
+        for label, ann in anns:
+            for shape, (hdr, call) in shapes.items():
+                ran: list = []
+                ns: dict = {"ran": ran}
+                exec(("async " if is_async else "") + hdr + "\n    ran.append((a, b))\n    return 1\n", ns)
+                f = ns["f"]
+                f.__annotations__ = {"a": ann, "b": int}
+                where = f"{'async ' if is_async else ''}{hdr[:-1]} with a: <{label}>, b: int and ignore_args={{'a'}} ({shape})"
+                try:
+                    w = validate_signature(f, ignore_args={"a"})
+                except BaseException as e:  # noqa
+                    return {"signature": f"{prefix}:ignored-parameter", "what": f"decorating {where} raised {e!r}: the body can never run"}
+                token = object()
+                for b, want in ((2, None), ("x", InvalidArgsError)):
+                    del ran[:]
+                    try:
+                        r = call(w, token, b)
+                        r = drive(r) if is_async else r
+                        exc = None
+                    except BaseException as e:  # noqa
+                        r, exc = None, e
+                    ok = (exc is None and r == 1 and len(ran) == 1) if want is None else (type(exc) is want and not ran and set(exc.errs) == {"b"})
+                    if ok and want is None:
+                        got = ran[0][0]
+                        ok = got is token or (shape == "varargs" and got == (token, token)) or (shape == "varkw" and got == {"k": token})
+                    if not ok:
+                        return {"signature": f"{prefix}:ignored-parameter",
+                                "what": f"{where} called with b={b!r}: ended with {exc!r} / returned {r!r}, body runs {ran!r}"}
+            # the same for the return value
+            ran2: list = []
+            if is_async:
+                async def g(b):
+                    ran2.append(b)
+                    return "anything"
+            else:
+                def g(b):  # type: ignore[misc]
+                    ran2.append(b)
+                    return "anything"
+            g.__annotations__ = {"b": int, "return": ann}
+            try:
+                w = validate_signature(g, ignore_return=True)
+                r = w(3)
+                r = drive(r) if is_async else r
+            except BaseException as e:  # noqa
+                return {"signature": f"{prefix}:ignored-parameter",
+                        "what": f"{'async ' if is_async else ''}g(b: int) -> <{label}> with ignore_return=True: decorating / calling g(3) raised {e!r}"}
+            if r != "anything" or ran2 != [3]:
+                return {"signature": f"{prefix}:ignored-parameter", "what": f"g(b: int) -> <{label}> with ignore_return=True: g(3) returned {r!r}, body runs {ran2!r}"}
+    return None
+
+
+def long_names_and_values(prefix: str = "C08") -> Optional[dict]:
+    """InvalidArgsError / InvalidReturnError are raised whatever the failing parameter is called and however long the
+    rejected value prints: names (and **kwargs keywords) of 1 .. 300 characters, values whose repr has 0 .. 5000."""
+    from koda_validate.signature import InvalidArgsError, InvalidReturnError, validate_signature
+    from ..corr import drive
+    for ln in (1, 2, 30, 55, 56, 57, 58, 59, 60, 61, 62, 63, 64, 100, 300):
+        nm = "p" * ln
+        for is_async in (False, True):
+            for shape in ("poskw", "kwonly", "extra"):
+                ran: list = []
+                src = {"poskw": f"def f({nm}):\n    ran.append(1)\n    return 1\n",
+                       "kwonly": f"def f(*, {nm}):\n    ran.append(1)\n    return 1\n",
+                       "extra": "def f(**extra):\n    ran.append(1)\n    return 1\n"}[shape]
+                ns: dict = {"ran": ran}
+                exec(("async " if is_async else "") + src, ns)
+                f = ns["f"]
+                f.__annotations__ = {"extra" if shape == "extra" else nm: int}
+                w = validate_signature(f)
+                for bad in ("", "x", "y" * 40, "z" * 70, "w" * 5000, None, [1] * 50, {"k": "v" * 80}):
+                    del ran[:]
+                    try:
+                        r = w(**{nm: bad})
+                        r = drive(r) if is_async else r
+                        exc = None
+                    except BaseException as e:  # noqa
+                        r, exc = None, e
+                    if type(exc) is not InvalidArgsError or ran or set(exc.errs) != {nm} or not isinstance(str(exc), str):
+                        return {"signature": f"{prefix}:long-names",
+                                "what": f"{'async ' if is_async else ''}function with an int-annotated {shape} parameter whose name has {ln} characters, called with "
+                                        f"{repr(bad)[:60]} ({len(repr(bad))} characters): expected InvalidArgsError keyed by the name before the body runs; "
+                                        f"ended with {exc!r:.300}, returned {r!r}, body runs {ran!r}"}
+    for is_async in (False, True):
+        for ret in ("", "y" * 57, "z" * 70, "w" * 5000, [1] * 50, None):
+            if is_async:
+                async def g():
+                    return ret
+            else:
+                def g():  # type: ignore[misc]
+                    return ret
+            g.__annotations__ = {"return": int}
+            try:
+                r = validate_signature(g)()
+                r = drive(r) if is_async else r
+                exc = None
+            except BaseException as e:  # noqa
+                r, exc = None, e
+            if type(exc) is not InvalidReturnError or not isinstance(str(exc), str):
+                return {"signature": f"{prefix}:long-names", "what": f"g() -> int returning {repr(ret)[:60]} ({len(repr(ret))} characters): expected InvalidReturnError, "
+                                                                     f"ended with {exc!r:.300} / returned {r!r}"}
+    return None
+
+
 def parameter_names() -> Optional[dict]:
     """Which argument is checked by which validator depends on the parameter's kind and annotation, not on its
     *name*: parameters (and **kwargs entries) called self, cls, args, kwargs, return, _ are checked like any other."""
@@ -315,6 +434,12 @@ def run(tier: str, rng: random.Random, proof_ok: bool, oracle_fn=oracle, name="C
         pn = parameter_names()
         if pn:
             violations.append({"kind": "oracle", **pn, "replay_case": {"parameter_names": True}})
+        ip = ignored_parameters("C08")
+        if ip:
+            violations.append({"kind": "oracle", **ip, "replay_case": {"ignored_parameters": True}})
+        ln_ = long_names_and_values("C08")
+        if ln_:
+            violations.append({"kind": "oracle", **ln_, "replay_case": {"long_names": True}})
     # overlapping calls of one decorated coroutine function
     npairs = 150 if tier == "quick" else 3000
     pairs_run = 0
@@ -411,6 +536,14 @@ def replay(path: str, oracle_fn=oracle) -> int:
     if cj.get("parameter_names"):
         r = parameter_names()
         print("property violated: " + r["what"] if r else "property holds whatever the parameters are called")
+        return 1 if r else 0
+    if cj.get("ignored_parameters"):
+        r = ignored_parameters("C08")
+        print("property violated: " + r["what"] if r else "property holds for ignored parameters with annotations no resolver reads")
+        return 1 if r else 0
+    if cj.get("long_names"):
+        r = long_names_and_values("C08")
+        print("property violated: " + r["what"] if r else "property holds for long parameter names and long values")
         return 1 if r else 0
     if cj.get("redecoration"):
         r = redecoration()
